@@ -45,8 +45,24 @@ def Lv(sym, xs): return [6, 1 if sym else 0, list(xs)]
 def Tv(xs): return [7, list(xs)]
 def Dv(sym, kvs): return [8, 1 if sym else 0, [[mk_key(k), v] for k, v in kvs]]
 def Ov(name, kvs, uid=0): return [9, S(name), [[mk_key(k), v] for k, v in kvs], uid]
-def mk_key(k): return k if isinstance(k, list) else ([0, S(k)] if isinstance(k, str) else [1, k])
-def key_py(k): return US(k[1]) if k[0] == 0 else k[1]
+def mk_key(k):
+  # an int key may carry a flavour: (1 z) int, (1 z 1) the bool of that value, (1 z 2) the float of that value -- the same dict key
+  # for Python (True == 1 == 1.0, equal hashes); the model is given (1 z)
+  if isinstance(k, list): return k
+  if isinstance(k, str): return [0, S(k)]
+  if isinstance(k, bool): return [1, int(k), 1]
+  if isinstance(k, float): return [1, int(k), 2]
+  return [1, k]
+def key_py(k):
+  if k[0] == 0: return US(k[1])
+  return k[1] if len(k) < 3 or k[2] == 0 else (bool(k[1]) if k[2] == 1 else float(k[1]))
+def kid(k): return json.dumps(k[:2])
+def strip(v):
+  """The tree the model is given: key flavours removed."""
+  if v[0] == 6: return [6, v[1], [strip(x) for x in v[2]]]
+  if v[0] == 7: return [7, [strip(x) for x in v[1]]]
+  if v[0] in (8, 9): return [v[0], v[1], [[k[:2], strip(x)] for k, x in v[2]]] + v[3:]
+  return v
 
 CLASS_FIELDS = {'A': ['x', 'y'], 'A1': ['x', 'y'], 'A2': ['x', 'y', 'z'], 'Bb': ['x', 'y'], 'Zq': ['q', 'p'], 'Nc': ['p']}
 OPT_IN = {'A', 'A1', 'A2', 'Bb', 'Zq'}
@@ -106,7 +122,7 @@ def canon(v, under_sym=False):
     return [7, [canon(x, under_sym) for x in v[1]]]
   if t == 8:
     sym = 1 if (v[1] or under_sym) else 0
-    return [8, sym, [[k, canon(x, bool(sym))] for k, x in v[2]]]
+    return [8, sym, [[(k[:2] if sym and len(k) > 2 and k[2] == 2 else k), canon(x, bool(sym))] for k, x in v[2]]]
   if t == 9:
     name = US(v[1]); got = {key_py(k): x for k, x in v[2]}
     return [9, v[1], [[mk_key(f), canon(got.get(f, MISSING), True)] for f in CLASS_FIELDS[name]], v[3]]
@@ -119,7 +135,7 @@ def buildable(v, under_sym=False, in_tuple=False):
   if t in (6, 8, 9) and in_tuple: return False
   if t == 6: return all(buildable(x, bool(v[1]) or under_sym) for x in v[2])
   if t == 7: return not in_tuple and all(buildable(x, False, True) for x in v[1])
-  if t == 8: return all(buildable(x, bool(v[1]) or under_sym) for _, x in v[2]) and len({json.dumps(k) for k, _ in v[2]}) == len(v[2])
+  if t == 8: return all(buildable(x, bool(v[1]) or under_sym) for _, x in v[2]) and len({kid(k) for k, _ in v[2]}) == len(v[2])
   if t == 9: return all(x[0] == 0 or buildable(x, True) for _, x in v[2])
   return True
 
@@ -217,7 +233,13 @@ class Gen:
     return Tv([self.leaf(True) for _ in range(n)])
   def keys(self, n, str_only=False):
     pool = [k for k in KEYS if isinstance(k, str)] if str_only or self.r.random() < .55 else KEYS
-    return self.r.sample(pool, min(n, len(pool)))
+    ks = self.r.sample(pool, min(n, len(pool)))
+    return [self.flavour(k) for k in ks]
+  def flavour(self, k):
+    r = self.r
+    if isinstance(k, int) and r.random() < .2:
+      return bool(k) if k in (0, 1) and r.random() < .6 else float(k)
+    return k
   def value(self, d, under_sym=False, missing_ok=True):
     r = self.r; k = r.random()
     if d <= 0 or k < .40: return self.leaf(missing_ok and not under_sym)
@@ -250,7 +272,7 @@ class Gen:
     if t == 7: return Tv([self.variant(x, under_sym) for x in v[1]])
     if t == 8:
       sym = under_sym or (r.random() < .5)
-      ents = [[k, self.variant(x, sym)] for k, x in v[2]]
+      ents = [[(mk_key(self.flavour(k[1])) if k[0] == 1 and r.random() < .3 else k), self.variant(x, sym)] for k, x in v[2]]
       if r.random() < .8: r.shuffle(ents)
       return [8, 1 if sym else 0, ents]
     if t == 9: return [9, v[1], [[k, self.variant(x, True)] for k, x in v[2]], v[3]]
@@ -289,12 +311,12 @@ class Gen:
         i = r.randrange(len(ents)); ents[i][1] = self.mutant(ents[i][1], sym)
       elif ents and k < .55: ents.pop(r.randrange(len(ents)))
       elif ents and k < .8:
-        i = r.randrange(len(ents)); used = {json.dumps(e[0]) for e in ents}
-        cand = [kk for kk in KEYS if json.dumps(mk_key(kk)) not in used]
+        i = r.randrange(len(ents)); used = {kid(e[0]) for e in ents}
+        cand = [kk for kk in KEYS if kid(mk_key(kk)) not in used]
         if cand: ents[i][0] = mk_key(r.choice(cand))
       else:
-        used = {json.dumps(e[0]) for e in ents}
-        cand = [kk for kk in KEYS if json.dumps(mk_key(kk)) not in used]
+        used = {kid(e[0]) for e in ents}
+        cand = [kk for kk in KEYS if kid(mk_key(kk)) not in used]
         if cand: ents.append([mk_key(r.choice(cand)), self.value(1, sym)])
       if r.random() < .5: r.shuffle(ents)
       return [8, 1 if sym else 0, ents]
@@ -316,7 +338,7 @@ def in_domain(v, fam, twins_ok=False):
   if t == 6: return all(in_domain(x, fam, twins_ok) for x in v[2])
   if t == 7: return fam is not None and all((is_num(x) if fam == 'num' else x[0] == 5) for x in v[1])
   if t in (8, 9):
-    return len({json.dumps(k) for k, _ in v[2]}) == len(v[2]) and all(in_domain(x, fam, twins_ok) for _, x in v[2])
+    return len({kid(k) for k, _ in v[2]}) == len(v[2]) and all(in_domain(x, fam, twins_ok) for _, x in v[2])
   return True
 
 def kind_of(v):
@@ -364,7 +386,7 @@ def keyed_family(rng, g, n):
     cs = [base, canon(g.variant(base, True), True)]
     for _ in range(rng.choice([1, 2])):
       cs.append(canon(g.mutant(rng.choice(cs), True), True))
-    cand[json.dumps(mk_key(k))] = [c for c in cs if buildable(c, True)] or [Iv(0)]
+    cand[kid(mk_key(k))] = [c for c in cs if buildable(c, True)] or [Iv(0)]
   flavour = rng.choice(['dict', 'dict', 'pgdict', 'mixed'])
   how = rng.choice(WRAPS)
   orders, out = [], []
@@ -374,7 +396,7 @@ def keyed_family(rng, g, n):
       order = list(keys); rng.shuffle(order)
     orders.append(order)
     sym = flavour == 'pgdict' or (flavour == 'mixed' and rng.random() < .5)
-    out.append(canon(wrap(Dv(sym, [(k, rng.choice(cand[json.dumps(mk_key(k))])) for k in order]), how)))
+    out.append(canon(wrap(Dv(sym, [(k, rng.choice(cand[kid(mk_key(k))])) for k in order]), how)))
   return out
 
 def pool():
@@ -414,7 +436,9 @@ def impl_pair(oa, ob, ops):
   ca, ha = _hash(oa); cb, hb = _hash(ob)
   out = [_plain(lambda: pg.eq(oa, ob)), _plain(lambda: pg.ne(oa, ob)), _res(lambda: pg.lt(oa, ob)), _res(lambda: pg.gt(oa, ob)),
          [ca, cb, 1 if (ca == 0 and cb == 0 and ha == hb) else 0]]
-  if ops:
+  if ops == 2:
+    out.append([_plain(lambda: oa == ob), _plain(lambda: oa != ob)])
+  elif ops:
     try: hc = 0 if hash(oa) == pg.hash(oa) else 8
     except BaseException as e: hc = _code(e)
     out.append([_plain(lambda: oa == ob), _plain(lambda: oa != ob), hc])
@@ -443,7 +467,7 @@ def _try(f):
 def dict_disc(ta, tb):
   if ta[0] == 9 and tb[0] == 9 and ta[1] == tb[1] and ta[3] != tb[3]: return 'same-qualname-different-class'
   if ta[0] in (8, 9) and tb[0] in (8, 9):
-    ka = [json.dumps(k) for k, _ in ta[2]]; kb = [json.dumps(k) for k, _ in tb[2]]
+    ka = [kid(k) for k, _ in ta[2]]; kb = [kid(k) for k, _ in tb[2]]
     mixed = len({k[0] for k, _ in ta[2]} | {k[0] for k, _ in tb[2]}) > 1
     if sorted(ka) == sorted(kb) and ka != kb: return 'key-order-differs'
     if mixed: return 'int-and-str-keys'
@@ -518,13 +542,13 @@ def sub_pairs(ta, tb):
     for i in range(max(len(xa), len(xb))):
       out.append((mk(ta, xa[:i] + xa[i + 1:]), mk(tb, xb[:i] + xb[i + 1:])))
   if ta[0] in (8, 9) and tb[0] in (8, 9):
-    da = {json.dumps(k): x for k, x in ta[2]}; db = {json.dumps(k): x for k, x in tb[2]}
+    da = {kid(k): x for k, x in ta[2]}; db = {kid(k): x for k, x in tb[2]}
     out += [(da[k], db[k]) for k in da if k in db]
     if ta[0] == 9 and tb[0] == 9:      # objects: compare their attribute dicts instead
       if ta[1] == tb[1] and ta[3] == tb[3]: out.append(([8, 1, ta[2]], [8, 1, tb[2]]))
     if ta[0] == 8 and tb[0] == 8:
       for k in list(da) + [k for k in db if k not in da]:
-        out.append(([8, ta[1], [e for e in ta[2] if json.dumps(e[0]) != k]], [8, tb[1], [e for e in tb[2] if json.dumps(e[0]) != k]]))
+        out.append(([8, ta[1], [e for e in ta[2] if kid(e[0]) != k]], [8, tb[1], [e for e in tb[2] if kid(e[0]) != k]]))
   return out
 
 def shrink_pair(ta, tb, clause):
@@ -546,7 +570,7 @@ def sub_triples(ts):
     xs = [t[2] if t[0] == 6 else t[1] for t in ts]
     out += [list(z) for z in zip(*xs)]
   if all(t[0] in (8, 9) for t in ts):
-    ds = [{json.dumps(k): x for k, x in t[2]} for t in ts]
+    ds = [{kid(k): x for k, x in t[2]} for t in ts]
     out += [[d[k] for d in ds] for k in ds[0] if all(k in d for d in ds)]
   return out
 
@@ -582,7 +606,7 @@ def show(t):
   return '%s%s(%s)' % (US(t[1]), "'" if t[3] else '', ', '.join('%s=%s' % (key_py(kk), show(x)) for kk, x in t[2]))
 
 # ------------------------------------------------------------------------------------------------
-def _ops_flag(ta): return 1 if (ta[0] == 9 and US(ta[1]) in OPT_IN) else 0
+def _ops_flag(ta): return 0 if ta[0] != 9 else (1 if US(ta[1]) in OPT_IN else 2)
 
 def make_cases(ctx):
   """-> list of dict(kind='pair'|'triple'|'sort'|'probe', vals=[trees], fam, dom, src)."""
@@ -593,6 +617,8 @@ def make_cases(ctx):
   for a in P:
     for b in P:
       cases.append(dict(kind='pair', vals=[a, b], fam='num', dom=in_domain(a, 'num') and in_domain(b, 'num'), src='sweep'))
+  for a in P:
+    cases.append(dict(kind='pair', vals=[a, a], fam='num', dom=in_domain(a, 'num'), src='self'))
   # (A') tuples outside the theorems' domain too (None / MISSING / mixed families inside): Python's own tuple `<`, TypeError paths
   TP = [Tv([]), Tv([Iv(1)]), Tv([F(1, 0)]), Tv([Iv(1), Iv(2)]), Tv([Sv('a')]), Tv([Sv('a'), Sv('b')]), Tv([NONE]), Tv([NONE, Iv(1)]), Tv([NONE, Iv(2)]),
         Tv([MISSING]), Tv([Iv(1), Sv('a')]), Tv([Iv(1), NONE]), Tv([B(True), Sv('a')]), Tv([Iv(1), Iv(2), Sv('x')]), Lv(0, [Tv([NONE]), Tv([Iv(1)])]), Lv(1, [Tv([NONE]), Tv([NONE])])]
@@ -678,7 +704,7 @@ def expand(case):
     def f():
       oa = build(a); ob = oa if case['src'] == 'self' else build(b)
       return impl_pair(oa, ob, _ops_flag(a))
-    return [([0, a, b, _ops_flag(a)], f)]
+    return [([0, strip(a), strip(b), _ops_flag(a), 1 if case['src'] == 'self' else 0], f)]
   if k == 'triple':
     out = []
     objs = {}
@@ -689,11 +715,11 @@ def expand(case):
       return f
     for i in range(3):
       for j in range(3):
-        if i != j: out.append(([0, vals[i], vals[j], _ops_flag(vals[i])], mk(i, j)))
+        if i != j: out.append(([0, strip(vals[i]), strip(vals[j]), _ops_flag(vals[i]), 0], mk(i, j)))
     return out
   if k == 'sort':
-    return [([1, vals], lambda: impl_sort([build(v) for v in vals]))]
-  return [([2, vals[0]], lambda: impl_probe(build(vals[0])))]
+    return [([1, [strip(v) for v in vals]], lambda: impl_sort([build(v) for v in vals]))]
+  return [([2, strip(vals[0])], lambda: impl_probe(build(vals[0])))]
 
 _SELF = {}
 _PAIRC = {}
@@ -821,6 +847,10 @@ def run(ctx):
     for sig, what, shrunk in oracle(c):
       ctx.hit(sig, what, shrunk)
   ctx.extra['oracle_evaluations'] = n_or
+  small = []
+  for v in pool() + [canon(v) for v in dict_family()] + [canon(wrap(v, h)) for v in dict_family()[::5] for h in ('list', 'field', 'pgvalue')]:
+    if in_domain(v, 'num') and v not in small: small.append(v)
+  exhaustive_triples(ctx, small)
   # targeted search when something no longer checks and no failing input was found yet
   if ctx.is_broken() and not ctx.hits:
     P = pool() + [canon(v) for v in dict_family()]; rng = ctx.rng
@@ -834,6 +864,39 @@ def run(ctx):
       vals = [rng.choice(P) for _ in range(rng.randint(3, 8))]
       for sig, what, shrunk in oracle(dict(kind='sort', vals=vals, fam='num')):
         ctx.hit(sig, what, shrunk)
+
+def exhaustive_triples(ctx, values):
+  """Every ordered triple of `values` against eq-transitivity, lt-transitivity and lt-respects-eq, decided on the n x n matrices
+  of pg.eq / pg.lt (rows as bit masks, so all n^3 triples cost n^2 mask operations).  A failing triple goes through the
+  ordinary triple oracle (shrinking, signature, replay)."""
+  import pyglove as pg
+  n = len(values)
+  xs, ys = [build(v) for v in values], [build(v) for v in values]     # two copies: no identity shortcut
+  E, L, bad = [0] * n, [0] * n, []
+  for i in range(n):
+    for j in range(n):
+      e, l = _try(lambda: pg.eq(xs[i], ys[j])), _try(lambda: pg.lt(xs[i], ys[j]))
+      if e[0] != 'ok' or l[0] != 'ok': bad.append((i, j)); continue
+      if e[1]: E[i] |= 1 << j
+      if l[1]: L[i] |= 1 << j
+  fails = []
+  def first_bit(m): return (m & -m).bit_length() - 1
+  for i in range(n):
+    for j in range(n):
+      if E[i] >> j & 1:
+        if E[j] & ~E[i]: fails.append((i, j, first_bit(E[j] & ~E[i])))          # eq(i,j), eq(j,k), not eq(i,k)
+        if L[j] & ~L[i]: fails.append((i, j, first_bit(L[j] & ~L[i])))          # eq(i,j), lt(j,k), not lt(i,k)
+      if L[i] >> j & 1:
+        if L[j] & ~L[i]: fails.append((i, j, first_bit(L[j] & ~L[i])))          # lt(i,j), lt(j,k), not lt(i,k)
+        if E[j] & ~L[i]: fails.append((i, j, first_bit(E[j] & ~L[i])))          # lt(i,j), eq(j,k), not lt(i,k)
+  for (i, j) in bad[:3]:
+    for sig, what, shrunk in oracle(dict(kind='pair', vals=[values[i], values[j]], fam='num')):
+      ctx.hit(sig, what, shrunk)
+  for (i, j, k) in fails[:5]:
+    for sig, what, shrunk in oracle(dict(kind='triple', vals=[values[i], values[j], values[k]], fam='num')):
+      ctx.hit(sig, what, shrunk)
+  ctx.extra['exhaustive_triples'] = dict(exhaustive=True, values=n, triples=n ** 3, failing=len(fails), pairs_raising=len(bad),
+      what='all ordered triples of the small-scope values (pool, dict family, tuples; those in the theorems\' domain): eq-trans, lt-trans, lt-respects-eq (both sides)')
 
 def replay(ctx, rp):
   classes()
